@@ -66,3 +66,9 @@ check('C20', 'exploration',
       'every alias name against the snake-cased callable of its scope, and 1932 (7728 thorough) paired old/new calls on real receivers must agree in result, exception, state, files and warnings.',
       'Paired-call equality holds on the recipe arguments only; static-method aliases cannot see a receiver; engine derivative calls on And/Or/BelongsTo are excluded (engine raises, outside /repo).',
       'bounded exhaustive enumeration of all discovered (receiver class, alias) pairs x call variants x argument shapes with a recording sentinel, plus paired old/new calls', 'DESIGN.md section 4, C20')
+check('C12', 'exploration',
+      'Fault planting over every operator kind x operand slot x 5 fault kinds (column absent, one name for two kinds, draw outside MonteCarlo, integration variable outside Integrate, panel variable outside the trajectory) x depth (direct, one operator deeper through 8 wrappers; thorough: every kind/slot) '
+      'x 5 entry forms; structural faults (choices, availabilities, nests, Hessian without gradient, bad tables) x 2 entry points; missing-data code placed in every cell of a table for 7 formulas x 2 codes against the lazy-read reference semantics (each expected engine error in a fresh process); '
+      'and every unfaulted skeleton through every entry form (no false rejection, reference value). Oracle: the library\'s own error type with a message naming the element, before any number.',
+      'Placement rules are judged at the BIOGEME entry forms (expression level: only "no number" for draws / integration variables); message clarity approximated by "names the element"; the engine\'s sticky error is a recorded finding and forces fresh processes for expected engine errors.',
+      'bounded exhaustive fault planting and missing-data cell placement on the real library/engine', 'DESIGN.md section 4, C12')
